@@ -67,6 +67,11 @@ class MinimizeUF:
         if f.nout != len(x0):
             f = c.scratch.setdefault(f"minimize_uf{len(x0)}", AckFun(f"minimize{len(x0)}", nout=len(x0)))
         key = list(x0) + list(getattr(fun, "key", []))
+        # the constraints (exclusion balls around known points, radius from the sampler's batch counter) are part of the problem:
+        # represent each by its value at a fixed probe point
+        probe = np.zeros(len(x0))
+        for cons in constraints or []:
+            key.append(cons["fun"](probe))
         res = f(key)
         for v, (lo, hi) in zip(res, bounds):
             c.solver.add(v.t >= lift(lo), v.t <= lift(hi))
